@@ -218,6 +218,8 @@ def enc_in(case):
 def oracle(case, r):
     """property text, by brute force over orders x mappings x labellings"""
     if "error" in r:
+        if all(l["syn"] for _, l in R.otree_leaves(case["O"])):
+            return False, f"the root orders could not be computed on a well-formed input ({r['error']})"
         return True, "leaf syntenies outside the solver's domain (empty synteny)"
     for k in ("ext", "base"):
         if r.get(k) is None:
